@@ -222,7 +222,11 @@ impl Circle2 {
         let cd = (temp - p2.x.powi(2) - p2.y.powi(2)) / 2.0;
         let det = (p0.x - p1.x) * (p1.y - p2.y) - (p1.x - p2.x) * (p0.y - p1.y);
 
-        if det.abs() < 1.0e-6 {
+        // `det` is the sine of the angle at p1 times the lengths of the two legs, so the test has
+        // to be relative to them; an absolute threshold calls every triple of closely spaced
+        // points collinear
+        let legs = (p0 - p1).norm() * (p1 - p2).norm();
+        if det.abs() <= 1.0e-9 * legs {
             Err("Points are collinear".into())
         } else {
             let cx = (bc * (p1.y - p2.y) - cd * (p0.y - p1.y)) / det;
